@@ -187,12 +187,16 @@ func rootAlloc(v ssa.Value) *ssa.Alloc {
 
 type modSet struct {
 	heaps  map[string]bool
-	all    bool // unknown effects
+	full   map[string]bool // may be written at references that existed before (explicit assigns)
+	direct map[string]bool // written by the code under execution itself (stores, appends, inlined helpers)
+	all    bool            // unknown effects
 	allocs bool
 	ghosts map[string]bool
 }
 
-func newModSet() *modSet { return &modSet{heaps: map[string]bool{}, ghosts: map[string]bool{}} }
+func newModSet() *modSet {
+	return &modSet{heaps: map[string]bool{}, ghosts: map[string]bool{}, full: map[string]bool{}, direct: map[string]bool{}}
+}
 
 func (m *modSet) union(o *modSet) bool {
 	ch := false
@@ -213,6 +217,18 @@ func (m *modSet) union(o *modSet) bool {
 	for h := range o.ghosts {
 		if !m.ghosts[h] {
 			m.ghosts[h] = true
+			ch = true
+		}
+	}
+	for h := range o.full {
+		if !m.full[h] {
+			m.full[h] = true
+			ch = true
+		}
+	}
+	for h := range o.direct {
+		if !m.direct[h] {
+			m.direct[h] = true
 			ch = true
 		}
 	}
@@ -414,7 +430,11 @@ func (x *Exec) calleeModSet(cc *ssa.CallCommon, sets map[*ssa.Function]*modSet) 
 			return m
 		}
 		if s, ok := sets[callee]; ok {
+			// an uncontracted /repo function is inlined: its writes are writes of the caller
 			m.union(s)
+			for h := range s.heaps {
+				m.direct[h] = true
+			}
 			return m
 		}
 		if isModelled(key) {
@@ -443,6 +463,7 @@ func (x *Exec) contractMods(con *FuncContract, m *modSet) {
 			m.ghosts[a[6:]] = true
 		} else {
 			m.heaps[a] = true
+			m.full[a] = true
 		}
 	}
 	if con.Allocates {
